@@ -103,6 +103,34 @@ pub fn apply_fsop(sb: &Path, op: &Value) -> i64 {
                 let t = CString::new(unhex(a[1].as_str().unwrap())).unwrap();
                 libc::umount2(t.as_ptr(), libc::MNT_DETACH) as i64
             }
+            // a directory chain deeper than PATH_MAX below sandbox-relative a[1]: [kind, base, levels, complen, ...]
+            "deepdir" => {
+                let fd = deep_fd(sb, a[1].as_str().unwrap(), a[2].as_u64().unwrap(), a[3].as_u64().unwrap(), true);
+                if fd >= 0 { libc::close(fd); 0 } else { -1 }
+            }
+            // ["rename_into_deep", src, base, levels, complen, newname] / ["rename_from_deep", base, levels, complen, name, dst]
+            "rename_into_deep" => {
+                let fd = deep_fd(sb, a[2].as_str().unwrap(), a[3].as_u64().unwrap(), a[4].as_u64().unwrap(), false);
+                if fd < 0 { -1 } else {
+                    let nn = CString::new(unhex(a[5].as_str().unwrap())).unwrap();
+                    let r = libc::renameat(libc::AT_FDCWD, p(1).as_ptr(), fd, nn.as_ptr()) as i64;
+                    let e = errno();
+                    libc::close(fd);
+                    if r < 0 { *libc::__errno_location() = e; }
+                    r
+                }
+            }
+            "rename_from_deep" => {
+                let fd = deep_fd(sb, a[1].as_str().unwrap(), a[2].as_u64().unwrap(), a[3].as_u64().unwrap(), false);
+                if fd < 0 { -1 } else {
+                    let nn = CString::new(unhex(a[4].as_str().unwrap())).unwrap();
+                    let r = libc::renameat(fd, nn.as_ptr(), libc::AT_FDCWD, p(5).as_ptr()) as i64;
+                    let e = errno();
+                    libc::close(fd);
+                    if r < 0 { *libc::__errno_location() = e; }
+                    r
+                }
+            }
             "rmtree" => {
                 let _ = std::fs::remove_dir_all(join(sb, a[1].as_str().unwrap()));
                 0
@@ -133,29 +161,59 @@ pub fn ident(sb: &Path, rel_hex: &str) -> Value {
 /// Recursive snapshot below `dir`: sorted list of
 /// [relpath-hex, mode, uid, dev, ino, nlink, size, link-body-hex|content-hex].
 pub fn snapshot(dir: &Path) -> Vec<Value> {
+    // descriptor-relative walk (openat / fstatat / readlinkat on one component at a time): sees entries whose
+    // absolute path is longer than PATH_MAX as well
     let mut out = Vec::new();
-    fn walk(base: &Path, rel: &Path, out: &mut Vec<Value>) {
-        let full = base.join(rel);
-        let mut names: Vec<OsString> = match std::fs::read_dir(&full) {
-            Ok(rd) => rd.filter_map(|e| e.ok()).map(|e| e.file_name()).collect(),
-            Err(_) => return,
-        };
+    fn list(dfd: i32) -> Vec<OsString> {
+        let mut names = Vec::new();
+        unsafe {
+            let d2 = libc::openat(dfd, b".\0".as_ptr() as *const libc::c_char, libc::O_RDONLY | libc::O_DIRECTORY | libc::O_CLOEXEC);
+            if d2 < 0 {
+                return names;
+            }
+            let d = libc::fdopendir(d2);
+            if d.is_null() {
+                libc::close(d2);
+                return names;
+            }
+            loop {
+                let e = libc::readdir(d);
+                if e.is_null() {
+                    break;
+                }
+                let n = std::ffi::CStr::from_ptr((*e).d_name.as_ptr()).to_bytes().to_vec();
+                if n != b"." && n != b".." {
+                    names.push(OsString::from_vec(n));
+                }
+            }
+            libc::closedir(d);
+        }
         names.sort();
-        for n in names {
+        names
+    }
+    fn walk(dfd: i32, rel: &Path, out: &mut Vec<Value>) {
+        for n in list(dfd) {
             let r = rel.join(&n);
-            let f = base.join(&r);
-            let c = cpath(&f);
+            let c = CString::new(n.as_bytes()).unwrap();
             let mut st: libc::stat = unsafe { std::mem::zeroed() };
-            if unsafe { libc::lstat(c.as_ptr(), &mut st) } != 0 {
+            if unsafe { libc::fstatat(dfd, c.as_ptr(), &mut st, libc::AT_SYMLINK_NOFOLLOW) } != 0 {
                 continue;
             }
             let fmt = st.st_mode & libc::S_IFMT;
             let extra = if fmt == libc::S_IFLNK {
-                std::fs::read_link(&f)
-                    .map(|t| hex(&t.into_os_string().into_vec()))
-                    .unwrap_or_default()
+                let mut buf = vec![0u8; 8192];
+                let k = unsafe { libc::readlinkat(dfd, c.as_ptr(), buf.as_mut_ptr() as *mut libc::c_char, buf.len()) };
+                if k >= 0 { hex(&buf[..k as usize]) } else { String::new() }
             } else if fmt == libc::S_IFREG {
-                std::fs::read(&f).map(|c| hex(&c[..c.len().min(64)])).unwrap_or_default()
+                let fd = unsafe { libc::openat(dfd, c.as_ptr(), libc::O_RDONLY | libc::O_NOFOLLOW | libc::O_CLOEXEC | libc::O_NONBLOCK) };
+                if fd >= 0 {
+                    let mut buf = vec![0u8; 64];
+                    let k = unsafe { libc::read(fd, buf.as_mut_ptr() as *mut libc::c_void, 64) };
+                    unsafe { libc::close(fd) };
+                    if k >= 0 { hex(&buf[..k as usize]) } else { String::new() }
+                } else {
+                    String::new()
+                }
             } else {
                 String::new()
             };
@@ -170,12 +228,46 @@ pub fn snapshot(dir: &Path) -> Vec<Value> {
                 extra
             ]));
             if fmt == libc::S_IFDIR {
-                walk(base, &r, out);
+                let sub = unsafe { libc::openat(dfd, c.as_ptr(), libc::O_RDONLY | libc::O_DIRECTORY | libc::O_NOFOLLOW | libc::O_CLOEXEC) };
+                if sub >= 0 {
+                    walk(sub, &r, out);
+                    unsafe { libc::close(sub) };
+                }
             }
         }
     }
-    walk(dir, Path::new(""), &mut out);
+    let c = cpath(dir);
+    let top = unsafe { libc::open(c.as_ptr(), libc::O_RDONLY | libc::O_DIRECTORY | libc::O_CLOEXEC) };
+    if top >= 0 {
+        walk(top, Path::new(""), &mut out);
+        unsafe { libc::close(top) };
+    }
     out
+}
+
+/// Descriptor of the directory `levels` levels below sandbox-relative `base`, each level named 'D' x `complen`
+/// (created on the way when `create`); the absolute path of the result may be longer than PATH_MAX.
+pub fn deep_fd(sb: &Path, base_hex: &str, levels: u64, complen: u64, create: bool) -> i32 {
+    let name = CString::new(vec![b'D'; complen as usize]).unwrap();
+    unsafe {
+        let b = cpath(&join(sb, base_hex));
+        if create {
+            libc::mkdir(b.as_ptr(), 0o755);
+        }
+        let mut fd = libc::open(b.as_ptr(), libc::O_RDONLY | libc::O_DIRECTORY | libc::O_CLOEXEC);
+        for _ in 0..levels {
+            if fd < 0 {
+                return -1;
+            }
+            if create {
+                libc::mkdirat(fd, name.as_ptr(), 0o755);
+            }
+            let next = libc::openat(fd, name.as_ptr(), libc::O_RDONLY | libc::O_DIRECTORY | libc::O_NOFOLLOW | libc::O_CLOEXEC);
+            libc::close(fd);
+            fd = next;
+        }
+        fd
+    }
 }
 
 /// Listing of the process' descriptor table: [fd, dev, ino, cloexec, target-hex].
